@@ -25,7 +25,10 @@ func (sl *StringLiteral) String() string {
 	if sl == nil {
 		return ""
 	}
-	str := "\"" + sl.Token.Literal + "\""
+	str := sl.Token.Literal
+	str = strings.ReplaceAll(str, "\\", "\\\\")
+	str = strings.ReplaceAll(str, "\"", "\\\"")
+	str = "\"" + str + "\""
 	str = strings.ReplaceAll(str, "\n", "\\n")
 	str = strings.ReplaceAll(str, "\r", "\\r")
 	str = strings.ReplaceAll(str, "\t", "\\t")
